@@ -37,10 +37,14 @@ fn subsumes(exp: &Value, got: &Value) -> bool {
 pub struct Sink {
     w: BufWriter<std::fs::File>,
     pub n: u64,
+    pub record: Option<Vec<Value>>,
 }
 impl Sink {
     pub fn run(&mut self, x: &mut exec::Exec, op: &Value) -> Vec<Value> {
         let line = serde_json::to_string(op).unwrap();
+        if let Some(rec) = self.record.as_mut() {
+            rec.push(op.clone());
+        }
         if op["op"] == "session" {
             alloc::session_reset();
         }
@@ -77,7 +81,7 @@ fn main() {
         "exec" => {
             open_died(&args[3]);
             let f = std::io::BufReader::new(std::fs::File::open(&args[2]).expect("ops file"));
-            let mut sink = Sink { w: BufWriter::new(std::fs::File::create(&args[3]).unwrap()), n: 0 };
+            let mut sink = Sink { w: BufWriter::new(std::fs::File::create(&args[3]).unwrap()), n: 0, record: None };
             for line in f.lines() {
                 let line = line.unwrap();
                 if line.trim().is_empty() {
@@ -146,7 +150,7 @@ fn main() {
             let seed: u64 = args[3].parse().unwrap();
             let n: u64 = args[4].parse().unwrap();
             open_died(&args[5]);
-            let mut sink = Sink { w: BufWriter::new(std::fs::File::create(&args[5]).unwrap()), n: 0 };
+            let mut sink = Sink { w: BufWriter::new(std::fs::File::create(&args[5]).unwrap()), n: 0, record: None };
             gen::run(fam, seed, n, &mut x, &mut sink);
             sink.w.flush().unwrap();
             println!("{}", json!({"events": sink.n}));
@@ -168,6 +172,13 @@ pub fn gen_more(fam: &str, r: &mut rng::Rng, n: u64, x: &mut exec::Exec, sink: &
         "elf" => gen_elf::elf_family(r, n, x, sink, false),
         "elfcorrupt" => gen_elf::elf_family(r, n, x, sink, true),
         "garbage" => gen_elf::garbage_family(r, n, x, sink),
+        "prefix" => gen_elf::prefix_family(r, n, x, sink, false),
+        "prefixall" => gen_elf::prefix_family(r, n, x, sink, true),
+        "locate" => gen_elf::locate_family(r, n, x, sink),
+        "stream" => gen_elf::stream_family(r, n, x, sink, "plain"),
+        "sfault" => gen_elf::stream_family(r, n, x, sink, "fault"),
+        "sfaultall" => gen_elf::stream_family(r, n, x, sink, "faultall"),
+        "sbig" => gen_elf::stream_family(r, n, x, sink, "big"),
         _ => panic!("harness: unknown generator family {fam}"),
     }
 }
